@@ -14,7 +14,7 @@ var c04Methods = []string{"Execute", "ExecuteSelectedRules", "ExecuteSelectedRul
 func init() {
 	register(&Prop{
 		ID:   "C04",
-		Rule: "rule sets of 1-10 (thorough 16) observer rules with tie-prone/negative/extreme saliences, installed by a full build optionally followed by incremental builds, random failing subset (a failing rule reports F and then fails through one of 12 statements (panicking function, method or three-level call - as statement, as assigned value, inside conc -, division by zero, missing function without arguments, missing name, nil receiver, non-boolean condition, out-of-range store, ill-typed arithmetic)), both flag values, sort-model entry points of engine and pool; oracle = reference sort predicate over the S/E/F trace, error and result map. Non-trivial: >=3 rules with >=2 distinct saliences; distinct by case hash",
+		Rule: "rule sets of 1-10 (thorough 16) observer rules with tie-prone/negative/extreme saliences, installed by a full build optionally followed by a removal of extra rules and by incremental builds; in a quarter of the cases an earlier call ran on the same engine / pool before (any method, or the call under test itself; rules may fail in that earlier call only; part of the incremental builds may lie between the two calls), random failing subset (a failing rule reports F and then fails through one of 12 statements (panicking function, method or three-level call - as statement, as assigned value, inside conc -, division by zero, missing function without arguments, missing name, nil receiver, non-boolean condition, out-of-range store, ill-typed arithmetic)), both flag values, sort-model entry points of engine and pool; oracle = reference sort predicate over the S/E/F trace, error and result map. Non-trivial: >=3 rules with >=2 distinct saliences; distinct by case hash",
 		New:  func() interface{} { return &SchedCase{} },
 		Gen: func(t *rapid.T) interface{} {
 			c := &SchedCase{}
